@@ -203,9 +203,11 @@ theorem WF_pickOld (os : List J) (i : Int) (w : WFL os) : WFJ (pickOld os i) := 
   · rw [h]; simp [WFJ]
   · exact WFL_mem w _ h
 
+variable {bad : Except String J}
+
 theorem mergeA_nonobj (f : Nat) (prev v : J) :
-    mergeA (f+1) prev (markReplaced v) = .ok (strip v) := by
-  cases v <;> cases prev <;> simp [markReplaced, mergeA, mergeReplaced, strip]
+    mergeG bad (f+1) prev (markReplaced v) = .ok (strip v) := by
+  cases v <;> cases prev <;> simp [markReplaced, mergeG, mergeReplaced, strip]
 
 theorem diffArr_obj (d : J → J → Option J) (asg) (os ns : List J) (x : J)
     (h : diffArr d asg os ns = some x) : ∃ kvs, x = .obj kvs := by
@@ -241,31 +243,31 @@ def GoodAsg (asg : List J → List J → List Int) : Prop := ∀ os ns, (asg os 
 
 theorem elemHA (asg) (f : Nat)
     (ih : ∀ (old new : J), depth old < f → WFJ old → WFJ new →
-      applyA f (strip old) (diffA asg f old new) = .ok (strip new))
+      applyG bad f (strip old) (diffA asg f old new) = .ok (strip new))
     (os ns : List (Nat × J)) (hd : depthO os < f) (wo : WFO os) (wn : WFO ns) :
     ∀ po ∈ os, ∀ pn ∈ ns, po.1 = pn.1 →
       (match diffA asg f po.2 pn.2 with
         | none => strip po.2 = strip pn.2
-        | some x => isRemoved x = false ∧ mergeA f (strip po.2) x = .ok (strip pn.2)) := by
+        | some x => isRemoved x = false ∧ mergeG bad f (strip po.2) x = .ok (strip pn.2)) := by
   intro po hpo pn hpn _
   have h1 : depth po.2 < f := Nat.lt_of_le_of_lt (depthO_mem po hpo) hd
   have := ih po.2 pn.2 h1 (WFO_mem wo po hpo) (WFO_mem wn pn hpn)
   cases hdf : diffA asg f po.2 pn.2 with
   | none =>
-    simp [hdf, applyA] at this
+    simp [hdf, applyG] at this
     simpa using this
   | some x =>
-    simp [hdf, applyA] at this
+    simp [hdf, applyG] at this
     exact ⟨diffA_not_removed asg f _ _ x hdf, this⟩
 
 theorem obj_roundtripA (asg) (f : Nat)
     (ih : ∀ (old new : J), depth old < f → WFJ old → WFJ new →
-      applyA f (strip old) (diffA asg f old new) = .ok (strip new))
+      applyG bad f (strip old) (diffA asg f old new) = .ok (strip new))
     (okvs nkvs : List (Nat × J)) (hd : depthO okvs < f)
     (so : sortedK okvs) (sn : sortedK nkvs)
     (wo : WFO okvs) (wn : WFO nkvs) (kko : keyOK okvs) (kkn : keyOK nkvs)
     (hk : keyEq (keyOf okvs) (keyOf nkvs) = true) :
-    mergeKvs (mergeA f) (stripO okvs) (diffKvs (diffA asg f) okvs nkvs) = .ok (stripO nkvs) := by
+    mergeKvs (mergeG bad f) (stripO okvs) (diffKvs (diffA asg f) okvs nkvs) = .ok (stripO nkvs) := by
   cases okvs with
   | nil =>
     cases nkvs with
@@ -309,7 +311,7 @@ theorem obj_roundtripA (asg) (f : Nat)
           have hdt : depthO to < f := by
             have : depthO to ≤ depthO ((0, v) :: to) := by simp [depthO]; omega
             omega
-          have := kvs_roundtrip (mergeA f) (diffA asg f) to tn (sortedK_noKey0_tail so) (sortedK_noKey0_tail sn)
+          have := kvs_roundtrip (mergeG bad f) (diffA asg f) to tn (sortedK_noKey0_tail so) (sortedK_noKey0_tail sn)
             (sortedK_tail so) (sortedK_tail sn) (elemHA asg f ih to tn hdt wo.2 wn.2)
           rw [diffKvs]
           simp [hdiff, stripO, this]
@@ -317,7 +319,7 @@ theorem obj_roundtripA (asg) (f : Nat)
 /-- **Round trip, full model** (objects, arrays with any index assignment, scalars, null), repaired encodings:
 applying `Diff(old, new)` to the key-stripped old value yields the key-stripped new value. -/
 theorem roundtripA (asg) (ga : GoodAsg asg) : ∀ (f : Nat) (old new : J), depth old < f → WFJ old → WFJ new →
-    applyA f (strip old) (diffA asg f old new) = .ok (strip new) := by
+    applyG bad f (strip old) (diffA asg f old new) = .ok (strip new) := by
   intro f
   induction f with
   | zero => intro old new h; omega
@@ -325,21 +327,21 @@ theorem roundtripA (asg) (ga : GoodAsg asg) : ∀ (f : Nat) (old new : J), depth
     intro old new hd wo wn
     cases old with
     | null =>
-      cases new <;> simp [diffA, applyA, strip, mergeA_nonobj]
+      cases new <;> simp [diffA, applyG, strip, mergeA_nonobj]
     | sc a =>
       cases new with
       | sc b =>
         by_cases hab : a = b
-        · simp [diffA, hab, applyA, strip]
-        · simp [diffA, hab, applyA, strip, mergeA, mergeReplaced]
-      | _ => simp [diffA, applyA, mergeA_nonobj]
+        · simp [diffA, hab, applyG, strip]
+        · simp [diffA, hab, applyG, strip, mergeG, mergeReplaced]
+      | _ => simp [diffA, applyG, mergeA_nonobj]
     | «by» a =>
       cases new with
       | «by» b =>
         by_cases hab : a = b
-        · simp [diffA, hab, applyA, strip]
-        · simp [diffA, hab, applyA, strip, mergeA_nonobj]
-      | _ => simp [diffA, applyA, mergeA_nonobj]
+        · simp [diffA, hab, applyG, strip]
+        · simp [diffA, hab, applyG, strip, mergeA_nonobj]
+      | _ => simp [diffA, applyG, mergeA_nonobj]
     | arr os =>
       cases new with
       | arr ns =>
@@ -347,7 +349,7 @@ theorem roundtripA (asg) (ga : GoodAsg asg) : ∀ (f : Nat) (old new : J), depth
         have H : ∀ p ∈ ((asg os ns).map (pickOld os)).zip ns,
             (match diffA asg f p.1 p.2 with
               | none => strip p.1 = strip p.2
-              | some x => mergeA f (strip p.1) x = .ok (strip p.2)) := by
+              | some x => mergeG bad f (strip p.1) x = .ok (strip p.2)) := by
           intro p hp
           have hp1 : p.1 ∈ (asg os ns).map (pickOld os) := (List.of_mem_zip hp).1
           have hp2 : p.2 ∈ ns := (List.of_mem_zip hp).2
@@ -356,17 +358,17 @@ theorem roundtripA (asg) (ga : GoodAsg asg) : ∀ (f : Nat) (old new : J), depth
           have w1 : WFJ p.1 := by rw [← hi]; exact WF_pickOld os i wo
           have := ih p.1 p.2 d1 w1 (WFL_mem wn _ hp2)
           cases hdf : diffA asg f p.1 p.2 with
-          | none => simp [hdf, applyA] at this; simpa using this
-          | some x => simp [hdf, applyA] at this; simpa using this
-        have A := arr_roundtrip (mergeA f) (diffA asg f) asg os ns (ga os ns) H
+          | none => simp [hdf, applyG] at this; simpa using this
+          | some x => simp [hdf, applyG] at this; simpa using this
+        have A := arr_roundtrip (mergeG bad f) (diffA asg f) asg os ns (ga os ns) H
         simp only [diffA]
         cases hda : diffArr (diffA asg f) asg os ns with
-        | none => simp [hda] at A; simp [applyA, strip, A]
+        | none => simp [hda] at A; simp [applyG, strip, A]
         | some dl =>
           simp only [hda] at A
           obtain ⟨dkvs, rfl, hm⟩ := A
-          simp [applyA, strip, mergeA, hm]
-      | _ => simp [diffA, applyA, mergeA_nonobj]
+          simp [applyG, strip, mergeG, hm]
+      | _ => simp [diffA, applyG, mergeA_nonobj]
     | obj okvs =>
       cases new with
       | obj nkvs =>
@@ -378,14 +380,14 @@ theorem roundtripA (asg) (ga : GoodAsg asg) : ∀ (f : Nat) (old new : J), depth
           by_cases hemp : diffKvs (diffA asg f) okvs nkvs = []
           · rw [hemp, mergeKvs_nil] at L
             injection L with L
-            simp [diffA, hk, hemp, applyA, strip, L]
-          · simp [diffA, hk, hemp, applyA, strip, mergeA, L, Except.map]
-        · simp [diffA, hk, applyA, mergeA_nonobj]
-      | _ => simp [diffA, applyA, mergeA_nonobj]
+            simp [diffA, hk, hemp, applyG, strip, L]
+          · simp [diffA, hk, hemp, applyG, strip, mergeG, L, Except.map]
+        · simp [diffA, hk, applyG, mergeA_nonobj]
+      | _ => simp [diffA, applyG, mergeA_nonobj]
 
 /-- `Diff(x, x)` is empty-or-harmless: applying it leaves `strip x` (corollary at `new := old`). -/
 theorem roundtripA_self (asg) (ga : GoodAsg asg) (x : J) (w : WFJ x) :
-    applyA (depth x + 1) (strip x) (diffA asg (depth x + 1) x x) = .ok (strip x) :=
+    applyG bad (depth x + 1) (strip x) (diffA asg (depth x + 1) x x) = .ok (strip x) :=
   roundtripA asg ga _ x x (by omega) w w
 
 end J
